@@ -151,6 +151,10 @@ func (in *Interp) mapUpdate(mvv Value, key, val Value, pos token.Pos) {
 	}
 	m := mv.m
 	in.recordMapAccess(m, true, pos)
+	if in.trackAcc {
+		in.publish(val, 0)
+		in.publish(key, 0)
+	}
 	val = copyVal(val)
 	match := in.matchTerms(m, key)
 	anyPossible := false
